@@ -2,6 +2,7 @@
   C10 — Schema validation is total and flags exactly the ill-formed containers.
 -/
 import BorshModel.SchemaCodec
+import BorshModel.Lemmas.Totality
 namespace Borsh
 
 /-- "a legal length width (0, 1, 2, 4 or 8 bytes and wide enough for the largest length)":
@@ -76,5 +77,15 @@ example :
     (Container.validate ⟨[65], [([65], .enum 9 [])]⟩ = .error (.tagTooWide [65])) ∧
     (Container.validate ⟨[65], [([65], .tuple [[65]])]⟩ = .ok ()) := by
   decide +kernel
+
+/-- **Validation is total**: on every container it terminates with `Ok` or one of its errors,
+never a panic (stack overflow on cycles, `count()` overflow, fuel) -/
+theorem C10_never_panics (c : Container) : c.validate.isPanic = false :=
+  validateImpl_noPanic c (c.defs.length + 1) c.decl [] (pathOk_nil c) (by simp)
+
+/-- the zero-size analysis used by validation is total too, from any declaration -/
+theorem C10_zero_size_never_panics (c : Container) (d : Name) :
+    (isZeroSize c (c.defs.length + 1) d []).isPanic = false :=
+  isZeroSize_noPanic c (c.defs.length + 1) d [] (pathOk_nil c) (by simp)
 
 end Borsh
